@@ -384,6 +384,13 @@ def gen(seed, tier, scale):
     rngs = [case_rng(seed, ID, 800000 + i) for i in range(nw)]
     for i, c in enumerate(cli.pmap(srccases.words_case, rngs)):
         yield 800000 + i, c
+    # ... and the reader options through the OTHER commands (treeanalysis, transitions, grammar: each has its own copy of
+    # the `getattr(treeinput, src_format)(src, enc, **options_dict(src_opts))` glue)
+    for k, f in enumerate((srccases.analysis_case, srccases.transitions_case, srccases.grammar_case)):
+        nc = (10 if tier == "quick" else 150) * scale
+        rngs = [case_rng(seed, ID, 810000 + 10000 * k + i) for i in range(nc)]
+        for i, c in enumerate(cli.pmap(f, rngs)):
+            yield 810000 + 10000 * k + i, c
     idx = 0
     L = 7 if tier == "quick" else 8
     for n in range(1, L + 1):
